@@ -19,6 +19,7 @@ CONFIGS = {
     'tsan':   ('-O1 -g -fno-omit-frame-pointer -fsanitize=thread -DNDEBUG', '-DSK_TSAN', '-fsanitize=thread'),
     'plain':  ('-O2 -g', '', ''),
     'plain32': ('-O2 -g -U__SIZEOF_INT128__', '', ''),
+    'release': ('-O2 -g -DNDEBUG', '', ''),   # the build that ships: no ASSERTs, so output oracles decide alone
 }
 WRAPS = ['malloc', 'calloc', 'realloc', 'free']
 
